@@ -62,7 +62,12 @@ func refVandermondeParity(data [][]byte, e int) []byte {
 
 // c07Try runs one reconstruction and judges it. missD / missP are bit masks.
 func c07Try(r *core.Rec, coder rsec16.Coder, kind string, d, p int, orig, parity [][]byte, missD, missP []bool) {
-	data := make([][]byte, d)
+	// the shard lists handed to the coder are windows into longer lists (as when the lists of several stripes lie
+	// back to back): capacity beyond the length, and what lies behind - here a copy of the same lists - is not the
+	// callee's to touch
+	dataArena := make([][]byte, 2*d+p+2)
+	parArena := make([][]byte, 2*p+d+2)
+	data := dataArena[:d]
 	var keepCopies [][]byte
 	nMissD := 0
 	var missCols []int
@@ -75,7 +80,7 @@ func c07Try(r *core.Rec, coder rsec16.Coder, kind string, d, p int, orig, parity
 		}
 		keepCopies = append(keepCopies, data[i])
 	}
-	par := make([][]byte, p)
+	par := parArena[:p]
 	var avail []int
 	for i := 0; i < p; i++ {
 		if !missP[i] {
@@ -83,6 +88,10 @@ func c07Try(r *core.Rec, coder rsec16.Coder, kind string, d, p int, orig, parity
 			avail = append(avail, i)
 		}
 	}
+	copy(dataArena[d:2*d], data) // "the next stripe": same shards, same holes
+	copy(parArena[p:2*p], par)
+	behindData := append([][]byte{}, dataArena[d:]...)
+	behindPar := append([][]byte{}, parArena[p:]...)
 	var err error
 	if pi := core.Catch(func() { err = coder.ReconstructData(data, par) }); pi != nil {
 		r.Violatef("reconstruct-panic:"+pi.Frame, "%s d=%d p=%d missing data %v parity %v: %s", kind, d, p, missD, missP, pi.Value)
@@ -90,6 +99,24 @@ func c07Try(r *core.Rec, coder rsec16.Coder, kind string, d, p int, orig, parity
 	}
 	r.AddTransitions(1)
 	what := fmt.Sprintf("%s d=%d p=%d len=%d missing data %v, available parity %v", kind, d, p, len(orig[0]), missCols, avail)
+	sameSlot := func(a, b []byte) bool {
+		if a == nil || b == nil {
+			return a == nil && b == nil
+		}
+		return len(a) == len(b) && (len(a) == 0 || &a[0] == &b[0])
+	}
+	for j := range behindData {
+		if !sameSlot(behindData[j], dataArena[d+j]) {
+			r.Violatef("list-entries-behind-the-data-list-altered", "%s: entry %d behind the data list handed in (len %d, cap %d) was overwritten", what, j, d, cap(data))
+			break
+		}
+	}
+	for j := range behindPar {
+		if !sameSlot(behindPar[j], parArena[p+j]) {
+			r.Violatef("list-entries-behind-the-parity-list-altered", "%s: entry %d behind the parity list handed in was overwritten", what, j)
+			break
+		}
+	}
 	// supplied data shards untouched
 	for i := 0; i < d; i++ {
 		if !missD[i] {
@@ -470,7 +497,7 @@ func init() {
 		ID:    "C07",
 		Level: "model_checking",
 		Rule: "bounded-exhaustive erasure patterns: both coders x every (d<=6,p<=5) (thorough d<=8,p<=6) x EVERY subset of missing data shards x EVERY subset of missing parity shards x shard length {2,4,14,16,18,32,34,66} x goroutines {1,2,3,5}; Vandermonde parity also compared with the reference sum; structured large code (140,260): 2-erasures with only parity rows {0,e} available for every e (contains the construction's singular pairs), and 3-erasures built on every column pair whose 2x2 minor vanishes (zero pivots, i.e. row swaps during elimination) x every third column x three row sets; tight patterns on (8,12),(5,12),(3,14) (thorough more): every k-subset of missing data x every k-subset of surviving parity; Cauchy (140,20); the documented limits (incl. 65535 parity rows for 1, 3 and 5 data shards: the highest rows are compared with the definition and used for reconstruction). " +
-			"Oracle: too few parity => NotEnoughParityShardsError; Cauchy always exact; Vandermonde exact iff the reference determinant of (lowest available rows x missing columns) != 0, else error or exact; nil => exact; supplied data shards unchanged. non-trivial = every case (all contain reconstructions)",
+			"Oracle: too few parity => NotEnoughParityShardsError; Cauchy always exact; Vandermonde exact iff the reference determinant of (lowest available rows x missing columns) != 0, else error or exact; nil => exact; supplied data shards unchanged; the shard lists are windows into longer lists, whose entries behind the window must not change. non-trivial = every case (all contain reconstructions)",
 		Assumptions: []string{"the statement does not constrain supplied parity shards; they are not compared"},
 		NewCase:     func() interface{} { return &c07Case{} },
 		Gen:         c07Gen,
